@@ -504,6 +504,13 @@ def gen_cases(ctx):
                     m[i] = (m[i] + d) & 0xFF
                     cases.append('nx ' + hexs(bytes(m) + b'A'))
             cases.append('nx ' + hexs(e + b'\x80'))
+    # the unchecked decoder of the support library, on input that starts with a well-formed sequence
+    for c in BOUNDARY_CPS:
+        if not (0xD800 <= c <= 0xDFFF):
+            cases.append('dv ' + hexs(chr(c).encode('utf-8')))
+            cases.append('dv ' + hexs(chr(c).encode('utf-8') + b'\xbf\x80'))
+    for _ in range(ctx.scale(3000, 30000)):
+        cases.append('dv ' + hexs(rand_valid_char(rng) + bytes(rng.getrandbits(8) for _ in range(rng.randrange(0, 3)))))
     for p in BAD_PIECES + CTRL_PIECES:
         cases.append('nx ' + hexs(p))
         cases.append('nx ' + hexs(p + b'\x80\x80'))
@@ -735,6 +742,14 @@ def oracle(case, out):
         return (op + '-entry-points-differ', 'two entry points of the same function disagree: ' + out[:200])
     if op == 'nx':
         return check_three(unhex(c[1]), o[1])
+    if op == 'dv':
+        s = unhex(c[1])
+        ref = ref_next(s)
+        if ref is None:
+            return None          # undefined behaviour of the unchecked decoder: never generated
+        if o[1] != '%x:%d' % ref:
+            return ('decode_valid-wrong', 'utf_traits<char>::decode_valid returned %s for %s (expected U+%04X, %d bytes)' % (o[1], s.hex(), ref[0], ref[1]))
+        return None
     if op == 'grid':
         seqs = grid_seqs(int(c[1], 16), int(c[2], 16))
         rs = o[1].split(',')
@@ -1100,6 +1115,7 @@ def _coqchk_project(budget):
         try:
             rc2, summ2 = _coqchk(mods, max(20, int(budget - (time.time() - t0))))
         except Exception as e:
+            proj.pop('axioms', None)
             proj.update({'rc': None, 'note': 'coqchk over %d compiled modules did not finish within %d s (%s); the closure of C14/Props.vo is '
                                              'checked separately' % (len(mods), budget, type(e).__name__)})
             break
